@@ -7,56 +7,56 @@ BASELINE = "cd /repo && /venv/bin/python -m pytest -ra -q -p no:cacheprovider --
 CHECKS = {
     "C04": dict(
         text="Seeded search (deterministic simulation of the block workers' thread pool with fault injection) over kernel inputs, block splits, "
-        "schedules and faults (worker failure before/after a task, thread-spawn failure, interruption of the waiting caller): every block-wise execution is compared with the single-pass kernel and the single-pass kernel with a "
+        "schedules and faults (worker failure before/after a task, thread-spawn failure, interruption of the waiting caller, crash points between statements (a MemoryError or Ctrl-C raised before a drawn Python line of the library, placed by a traced dry run; DESIGN 9.4); after a call in which a fault fired the same call is repeated and must be right): every block-wise execution is compared with the single-pass kernel and the single-pass kernel with a "
         "pure-Python per-group reference model. Sampling of the bounded space the property names (not enumeration); a clean batch is evidence, not proof.",
         note="Trusts: task atomicity (numba nogil kernels), NUMBA_BOUNDSCHECK=1 for memory safety, the 60-line reference model in gbsim/c04.py, numpy/pyarrow. "
         "The int64-sum-with-int64.min cell is compared only within one container type.",
         design="4.2",
-        technique="deterministic simulation: simulated thread pool + seeded schedules + injected worker/spawn failures; reference-model and block-wise-vs-single-pass oracles",
+        technique="deterministic simulation: simulated thread pool + seeded schedules + injected worker/spawn failures and statement-level crash points; reference-model and block-wise-vs-single-pass oracles",
     ),
 }
 
 CHECKS["C20"] = dict(
     text="Seeded search over arrays, thread counts (explicit and the default heuristic on a simulated machine of 1-64 CPUs), block schedules of the simulated "
-    "pool and injected faults (worker failure, spawn failure, interruption of the waiting caller); every result is compared with NumPy's NaN-aware function computed in float64 (exactly for min/max/count, within a "
+    "pool and injected faults (worker failure, spawn failure, interruption of the waiting caller, crash points between statements (a MemoryError or Ctrl-C raised before a drawn Python line of the library, placed by a traced dry run; DESIGN 9.4); after a call in which a fault fired the same call is repeated and must be right); every result is compared with NumPy's NaN-aware function computed in float64 (exactly for min/max/count, within a "
     "derived summation bound for sum/mean/var/std) and with the one-thread result. The pure helper clauses (nb_dot, bools_to_categorical, pretty_cut) are "
     "evaluated alongside against their definitions; the level claimed rests on the reducer clause. Sampling: evidence, not proof.",
     note="Trusts NumPy as the oracle, task atomicity, NUMBA_BOUNDSCHECK=1. Integer arrays never contain int64.min (library null marker, no NumPy counterpart).",
     design="4.5",
-    technique="deterministic simulation: simulated thread pool + simulated cpu_count + rescaled thread heuristic + injected worker failures; NumPy reference oracle",
+    technique="deterministic simulation: simulated thread pool + simulated cpu_count + rescaled thread heuristic + injected worker failures and statement-level crash points; NumPy reference oracle",
 )
 
 CHECKS["C03"] = dict(
     text="Seeded search over logical datasets, operations, execution strategies (chunking threshold, rows per thread, key chunks, simulated cpu_count, pool "
     "workers, pyarrow chunk layouts of keys and values), schedules of the simulated thread pool (two independent schedules per strategy) and injected worker "
-    "failures / spawn failures / interruptions of the waiting caller. Operations come from the whole public catalogue, one in five through the pandas-style facade. Relational oracle: a fresh GroupBy under the explored strategy must give the same outcome as under the baseline strategy (whole factorization, "
-    "one thread, contiguous inputs); a faulted call must raise or return the baseline value. A real-scale arm exercises the unmodified 1,000,000-row literals. "
+    "failures / spawn failures / interruptions of the waiting caller / crash points between statements (DESIGN 9.4). Operations come from the whole public catalogue, one in five through the pandas-style facade. Relational oracle: a fresh GroupBy under the explored strategy must give the same outcome as under the baseline strategy (whole factorization, "
+    "one thread, contiguous inputs); a faulted call must raise or return the baseline value, and the same call repeated afterwards must be right. One fault-free run in three applies its operations in sequence to one shared grouping under both strategies. A real-scale arm exercises the unmodified 1,000,000-row literals. "
     "Sampling: a clean batch is evidence, not proof.",
     note="Trusts the baseline strategy as reference (a defect identical under every strategy is invisible by design), task atomicity, NUMBA_BOUNDSCHECK=1, "
     "the canonical comparison of gbsim/compare.py (index dtype and integer width ignored; float sums within a derived bound).",
     design="4.1",
-    technique="deterministic simulation: simulated thread pool and machine, rescaled strategy literals, seeded schedules, injected worker/spawn failures; relational strategy-vs-baseline and schedule-vs-schedule oracles",
+    technique="deterministic simulation: simulated thread pool and machine, rescaled strategy literals, seeded schedules, injected worker/spawn failures and statement-level crash points; relational strategy-vs-baseline and schedule-vs-schedule oracles",
 )
 
 CHECKS["C13"] = dict(
     text="Seeded search over histories: one GroupBy is driven by a simulated client through 2-8 (thorough: 14) drawn steps -- any public operation with fresh "
-    "masks/columns (directly or through a reused pandas-style facade object), copy-constructor steps, class-form calls, failing calls, and in the fault configuration one injected worker failure, spawn failure or interruption of the waiting caller -- under drawn strategy "
+    "masks/columns (directly or through a reused pandas-style facade object), copy-constructor steps, class-form calls, failing calls, and in the fault configuration one injected worker failure, spawn failure, interruption of the waiting caller or crash point between two statements of the library (a MemoryError or Ctrl-C before a drawn Python line, biased to land right after the object re-bound one of its attributes; DESIGN 9.4), followed half of the time by a retry or a close relative of the failed call -- under drawn strategy "
     "knobs so that every key representation (contiguous, chunked with per-chunk dictionaries, chunked after unification, sorted prefix, arrow-chunked) is reached "
     "at small sizes. After every step the outcome is compared with a fresh GroupBy used for that step only, and the grouping's labels and per-row labels are "
     "compared with those at construction. Sampling: evidence, not proof.",
     note="The model is a fresh object running the same code, so history-independent defects cancel out by design. Invariants read private attributes via getattr.",
     design="4.3",
-    technique="deterministic simulation: stateful history generation against a fresh-object reference model, simulated thread pool, injected worker failures, cross-invariants after every step",
+    technique="deterministic simulation: stateful history generation against a fresh-object reference model, simulated thread pool, injected worker failures, interrupts and statement-level crash points (seeded, replayable), cross-invariants after every step",
 )
 CHECKS["C19"] = dict(
     text="Seeded search over client/library histories sharing memory: keys, values, masks and codes live in drawn containers (NumPy strided/offset/read-only views, "
     "pandas NumPy- and Arrow-backed, Categorical, polars, pyarrow arrays and chunked arrays); after every step -- including failing steps and steps with an injected "
-    "worker failure or interruption, and steps through the pandas-style facade -- byte-level fingerprints of every owning buffer and the grouping's labels are compared with the initial ones; after a scribble over every "
+    "worker failure, interruption or crash point between two statements of the library, and steps through the pandas-style facade -- byte-level fingerprints of every owning buffer and the grouping's labels are compared with the initial ones; after a scribble over every "
     "writable byte of a returned result the fingerprints are checked again and the identical call repeated on the same and on a fresh object must equal a deep copy "
     "of the first result. The simulated pool's shared-write monitor flags any task that writes into an argument array. Sampling: evidence, not proof.",
     note="Trusts the fingerprint walker of gbsim/executor.py to reach every owning buffer; the client writes only where the result reports itself writable.",
     design="4.4",
-    technique="deterministic simulation: client/library shared-memory histories with write monitors, result scribbling and repeat-call oracle, simulated thread pool with injected failures",
+    technique="deterministic simulation: client/library shared-memory histories with write monitors, result scribbling and repeat-call oracle, simulated thread pool with injected failures and statement-level crash points",
 )
 
 NOT_APPLICABLE = {
